@@ -23,7 +23,8 @@
 //     entry points - except the operations the executor has seen ONLY on a holder that was
 //     freshly allocated by the call itself (thread-local) and the function that looks the holder
 //     up in the context:
-//     h.Load() -> verifBefore(h).Load(), h.Store(x) -> h.Store(verifBefore(x)),
+//     h.Load() -> verifCall0(h.Load) (works for pointers and for value-typed atomic fields such
+//     as lh.level of type atomic.Int32 alike), h.Store(x) -> h.Store(verifBefore(x)),
 //     h.CompareAndSwap(a, b) -> h.CompareAndSwap(a, verifBefore(b)).
 //     Mutexes (outside the instruction set) are made schedulable: mu.Lock() -> verifLock(mu.TryLock)
 //     (a yield, then a yield-spin on TryLock), mu.Unlock() -> verifUnlock(mu.Unlock).
@@ -43,7 +44,7 @@ import (
 	"strings"
 )
 
-var atomicArity = map[string]int{"Load": 0, "Store": 1, "CompareAndSwap": 2, "Swap": 1}
+var atomicArity = map[string]int{"Load": 0, "Store": 1, "CompareAndSwap": 2, "Swap": 1, "Add": 1}
 var lockNames = map[string]bool{"Lock": true, "Unlock": true, "RLock": true, "RUnlock": true}
 var builtins = map[string]bool{"len": true, "cap": true, "append": true, "make": true, "new": true, "copy": true,
 	"delete": true, "panic": true, "print": true, "println": true, "min": true, "max": true, "clear": true,
@@ -1261,8 +1262,11 @@ func (p *pkgInfo) instrument(reach map[*ast.FuncDecl]bool, freshOnly map[*ast.Ca
 				if k := len(c.Args); k > 0 {
 					c.Args[k-1] = hook(c.Args[k-1])
 				} else {
-					sel := c.Fun.(*ast.SelectorExpr)
-					sel.X = hook(sel.X)
+					// x.Load() -> verifCall0(x.Load): the receiver is evaluated (for a value-typed
+					// atomic field of the holder: its address is taken), the hook runs, then the
+					// call.  Nothing is copied, whatever the type of x.
+					c.Args = []ast.Expr{c.Fun}
+					c.Fun = ast.NewIdent("verifCall0")
 				}
 				return true
 			}
